@@ -167,3 +167,42 @@ Definition missing_ref_rows (t : list row) (ref : list rrow) : list string :=
 (* reference encoder for one instruction, by its reference kinds *)
 Definition ref_encode (op : Z) (ks : list rkind) (ops : list operand) : list Z :=
   to_bytes CMD_BYTES (pack (ref_layout ks) (op :: flat ops)).
+
+(* ---- independent per-byte reference (the property text read literally) ---- *)
+Definition le4 (v : Z) : list Z :=
+  let u := v mod 2 ^ 32 in
+  [u mod 256; (u / 256) mod 256; (u / 65536) mod 256; (u / 16777216) mod 256].
+
+Definition regb (b i : Z) : Z := b + 4 * i.
+
+Definition op_bytes (k : rkind) (o : operand) : option (list Z) :=
+  match k, o with
+  | RReg, OReg b i => Some [regb b i]
+  | RImm8, OImm v => Some [v]
+  | RInt32, OImm v => Some (le4 v)
+  | RAddr, OAddr a => Some (le4 a)
+  | REntry, OEntry a b i => Some ((le4 a ++ [regb b i])%list)
+  | RSlice, OSlice a b1 i1 b2 i2 => Some ((le4 a ++ [regb b1 i1; regb b2 i2])%list)
+  | _, _ => None
+  end.
+
+Fixpoint ops_bytes (ks : list rkind) (ops : list operand) : option (list Z) :=
+  match ks, ops with
+  | [], [] => Some []
+  | k :: ks', o :: ops' =>
+      match op_bytes k o, ops_bytes ks' ops' with
+      | Some a, Some b => Some (a ++ b)%list
+      | _, _ => None
+      end
+  | _, _ => None
+  end.
+
+(* opcode, operand bytes in order, zero padding up to 7 bytes *)
+Definition ref_bytes (op : Z) (ks : list rkind) (ops : list operand) : option (list Z) :=
+  match ops_bytes ks ops with
+  | Some body =>
+      if Nat.leb (S (List.length body)) CMD_BYTES
+      then Some (op :: body ++ repeat 0 (CMD_BYTES - S (List.length body)))%list
+      else None
+  | None => None
+  end.
